@@ -156,12 +156,13 @@ def gen_tree(rng, chip, depth, budget, shape):
     return {"c": list(chip), "k": kids}
 
 
-def tree_nodes(t, out=None):
-    out = [] if out is None else out
-    out.append(t)
-    for r, s in t["k"]:
-        if s is not None:
-            tree_nodes(s, out)
+def tree_nodes(t):
+    """all nodes, parents before children, children in order (iterative: trees may be thousands of levels deep)"""
+    out, stack = [], [t]
+    while stack:
+        n = stack.pop()
+        out.append(n)
+        stack.extend(s for r, s in reversed(n["k"]) if s is not None)
     return out
 
 
@@ -274,7 +275,7 @@ def decorate(rng, t, ordered=False):
 
 
 def wellformed(t):
-    return all(s is None or (r is not None and r < 6 and wellformed(s)) for r, s in t["k"])
+    return all(s is None or (r is not None and r < 6) for n in tree_nodes(t) for r, s in n["k"])
 
 
 class Vertex(object):
@@ -635,6 +636,68 @@ def judge_forest(ctx, case, fc, impl, out3, label="", count=True):
     if count:
         ctx.case(case, nontrivial)
     return nontrivial
+
+
+def expand_scale_forest(case):
+    """the forest of a scale case (built from a few numbers; deep chains cannot be written as nested JSON)"""
+    n, shape = case["n"], case["shape"]
+    if shape == "chain":
+        # one chain of n hops along the x axis, a core at every hop, a second net joining half-way
+        t = {"c": [n, 3], "k": [[9, None]]}
+        for i in range(n - 1, -1, -1):
+            t = {"c": [i, 3], "k": [[6 + i % 18, None], [0, t]] if i % 2 else [[0, t], [None, None]]}
+            if i == n // 2:
+                half = t
+        nets = [{"key": 0xdead0000, "mask": 0xffff0000, "tree": t},
+                {"key": 0xbeef0000, "mask": 0xffff0000, "tree": {"c": [n // 2, 2], "k": [[2, half]]}}]
+    elif shape == "star":
+        # one node with n children (all 24 routes and None, many times over) and six subtrees
+        kids = [[None if i % 25 == 24 else i % 25, None] for i in range(n)]
+        kids += [[l, {"c": [10 + LINK_VEC[l][0], 10 + LINK_VEC[l][1]], "k": [[6 + l, None]] * 40}] for l in range(6)]
+        nets = [{"key": 1, "mask": 0xffffffff, "tree": {"c": [10, 10], "k": kids}}]
+    else:
+        # n nets with the same key and mask, all crossing chip (5, 5) from six directions and leaving it the same way
+        nets = []
+        for i in range(n):
+            l = i % 6
+            dx, dy = LINK_VEC[l]
+            nets.append({"key": 0x42, "mask": 0xff, "tree": {"c": [5 - dx, 5 - dy], "k": [
+                [l, {"c": [5, 5], "k": [[0, {"c": [6, 5], "k": [[7 + i % 17, None]]}], [7, None]]}]]}})
+    return {"kind": "forest", "nets": nets, "links_enum": case.get("links_enum", False), "ak": case.get("ak")}
+
+
+def lean_tree(t):
+    """a tree for the Lean side: deep chains in the flat form"""
+    items, cur = [], t
+    while True:
+        subs = [(r, s) for r, s in cur["k"] if s is not None]
+        if len(subs) > 1 or (subs and cur["k"][-1][1] is None and False):
+            return t
+        leaves = [[r, None] for r, s in cur["k"] if s is None]
+        if not subs:
+            items.append({"c": cur["c"], "k": leaves})
+            break
+        # (the flat form puts the subtree after the leaves: the order of children is not observable in the model's
+        # result up to the order of entries, which the comparison ignores)
+        items.append({"c": cur["c"], "k": leaves, "r": subs[0][0]})
+        cur = subs[0][1]
+    return {"chain": items} if len(items) > 200 else t
+
+
+def eval_scale_forests(ctx, cases):
+    import sys
+    old = sys.getrecursionlimit()
+    sys.setrecursionlimit(200000)
+    try:
+        for c in cases:
+            fc = expand_scale_forest(c)
+            impl = impl_tables(fc, seconds=120)
+            lean_fc = dict(fc, nets=[dict(n, tree=lean_tree(n["tree"])) for n in fc["nets"]])
+            out = ctx.lean(forest_reqs(lean_fc, impl))
+            ctx.tag("scale_forest_%s_%d" % (c["shape"], c["n"]))
+            judge_forest(ctx, c, fc, impl, out, label="scale (%s, %d): " % (c["shape"], c["n"]))
+    finally:
+        sys.setrecursionlimit(old)
 
 
 def eval_forests(ctx, cases, seconds=2):
@@ -1110,12 +1173,17 @@ def expand_load(case):
     """the full (deterministic) content of a machine case from its seed and size class"""
     rng = random.Random(case["seed"])
     n_chips = case["n_chips"]
-    coords = rng.sample([(x, y) for x in range(W) for y in range(H)], n_chips)
+    grid = 16 if case["size"] == "many" else W
+    coords = rng.sample([(x, y) for x in range(grid) for y in range(grid)], n_chips)
     chips, tables = [], []
     for xy in coords:
         kind = rng.choice(["empty", "frag", "frag", "frag", "frag", "frag", "frag", "full"]) if case["size"] != "huge" else \
             rng.choice(["empty", "empty", "frag"])
-        if case["size"] == "huge":
+        if case["size"] in ("over", "many"):
+            # scale: more entries than a router has rows / than 16 bits count; hundreds of chips in one dict
+            kind = "empty"
+            n = case["n"] if case["size"] == "over" else rng.choice([0, 1, 1, 2])
+        elif case["size"] == "huge":
             n = rng.choice([1023, 1023, 1024, 1000, 512])
         elif case["size"] == "big":
             n = rng.choice([64, 100, 255, 256, 257, 300])
@@ -1132,11 +1200,11 @@ def expand_load(case):
             "buf": rng.choice([16, 64, 128, 256, 256, 256, 512]),
             "via": "entries" if n_chips == 1 and rng.random() < 0.5 else "tables",
             "clear": rng.random() < 0.3, "wide": case.get("wide", False),
-            "readback": [c for i, c in enumerate(coords) if i == 0 or rng.random() < 0.3]}
+            "readback": [c for i, c in enumerate(coords) if i == 0 or (rng.random() < 0.3 and case["size"] != "many")]}
     # (drawn after everything else so that older payloads expand as before)
     # bystander chips: a router state but no table - load_routing_tables must leave them alone
     full["bystanders"] = []
-    if case["size"] != "huge" and rng.random() < 0.5:
+    if case["size"] not in ("huge", "over", "many") and rng.random() < 0.5:
         rest = [(x, y) for x in range(W) for y in range(H) if (x, y) not in coords]
         for xy in rng.sample(rest, rng.choice([1, 1, 2])):
             full["bystanders"].append({"chip": list(xy), "sys_buf": 0x60000000 + 4 * rng.randrange(0x10000),
@@ -1918,10 +1986,10 @@ def gen_session(rng):
         rb = step["readback"]
         if rng.random() < 0.5:
             step["ak"] = rng.randrange(1 << 30)          # argument kinds and calling conventions of this step
-        if rng.random() < 0.2:
+        if rng.random() < 0.3:
             # the network fails once during the load: the n-th datagram of this step is lost (request or reply), answered
             # with a retryable or a fatal return code, or it and all its retransmissions are lost
-            step["fault"] = {"at": rng.randrange(12), "kind": rng.choice(["lost_request", "lost_reply", "lost_reply",
+            step["fault"] = {"at": rng.randrange(8), "kind": rng.choice(["lost_request", "lost_reply", "lost_reply",
                                                                           "rc_retry", "rc_fatal", "dead"]),
                              "code": rng.choice([0x81, 0x83, 0x84, 0x87, 0x8e])}
         # which of the two controllers of the session loads / reads back; what the caller then does, in place, with
@@ -2145,7 +2213,7 @@ def gen_codec(rng, n):
                 bs[7] = 0xff
             if rng.random() < 0.1:
                 bs = bs[:rng.choice([0, 1, 15])] if rng.random() < 0.5 else bs + [1]
-            cases.append({"kind": "unpack", "bytes": bs})
+            cases.append({"kind": "unpack", "bytes": bs, "bk": rng.choice(["bytes", "bytes", "bytearray", "memoryview"])})
         else:
             e = gen_entries(rng, 1)[0]
             i = rng.choice([0, 1, 255, 256, 1023, rng.randrange(1024)])
@@ -2174,8 +2242,12 @@ def eval_codec(ctx, cases):
             reqs.append({"suite": "c10", "op": "pack", "i": c["i"], "entry": c["entry"]})
     for c, r in zip(cases, ctx.lean(reqs)):
         if c["kind"] == "unpack":
+            bk = c.get("bk", "bytes")
+            packed = bytearray(c["bytes"]) if bk == "bytearray" else memoryview(bytes(c["bytes"])) if bk == "memoryview" \
+                else bytes(c["bytes"])
+            ctx.tag("unpack_from_" + bk)
             try:
-                impl = {"ok": canon_dec(mcm.unpack_routing_table_entry(bytes(c["bytes"])))}
+                impl = {"ok": canon_dec(limited(2, lambda: mcm.unpack_routing_table_entry(packed)))}
             except struct.error:
                 impl = {"err": "struct.error"}
             ctx.tag("unpack_" + ("err" if "err" in impl else "unused" if impl["ok"] is None else "used"))
@@ -2257,6 +2329,24 @@ def run(ctx):
     eval_loads(ctx, gen_load_cases(ctx, n_load))
     eval_loads(ctx, gen_load_cases(ctx, ctx.scale(30, 300) * mult, lost=True))
     eval_sessions(ctx, [gen_session(ctx.rng) for _ in range(ctx.scale(24, 400) * mult)])
+    # scale: a handful of cases far beyond the usual size (CPU limits raised accordingly)
+    sc = [{"kind": "forest_scale", "shape": "chain", "n": ctx.scale(1200, 3000)},
+          {"kind": "forest_scale", "shape": "star", "n": ctx.scale(600, 5000), "ak": {
+              "ids": "str", "routes": "ordered", "net_keys": "default", "km": "named", "num": "intlike", "conv": "kw"}},
+          {"kind": "forest_scale", "shape": "nets", "n": ctx.scale(300, 2000)}]
+    eval_scale_forests(ctx, sc)
+    ls = [{"kind": "load", "seed": ctx.rng.randrange(1 << 40), "size": "over", "n": 1025, "n_chips": 1, "window": 1,
+           "wide": False, "cpu": 300},
+          {"kind": "load", "seed": ctx.rng.randrange(1 << 40), "size": "many", "n_chips": ctx.scale(150, 256), "window": 8,
+           "wide": False, "cpu": 300, "ak": ctx.rng.randrange(1 << 30)}]
+    if not ctx.quick:
+        ls.append({"kind": "load", "seed": ctx.rng.randrange(1 << 40), "size": "over", "n": 65537, "n_chips": 1,
+                   "window": 1, "wide": False, "cpu": 300})
+        ls.append({"kind": "load", "seed": ctx.rng.randrange(1 << 40), "size": "over", "n": 65536, "n_chips": 1,
+                   "window": 2, "wide": False, "cpu": 300, "ak": 7})
+    for c in ls:
+        ctx.tag("scale_load_%s_%s" % (c["size"], c.get("n", c["n_chips"])))
+    eval_loads(ctx, ls, batch=1)
 
 
 def replay(ctx, payload):
@@ -2266,6 +2356,8 @@ def replay(ctx, payload):
         eval_forests(ctx, [c])
     elif c.get("kind") == "fhist":
         eval_fhists(ctx, [c])
+    elif c.get("kind") == "forest_scale":
+        eval_scale_forests(ctx, [c])
     elif c.get("kind") == "load":
         eval_loads(ctx, [c])
     elif c.get("kind") == "session":
